@@ -258,7 +258,13 @@ func (d *Document) PrintValue(value Value, w io.Writer) (err error) {
 			_, err = w.Write(literal.QUOTE)
 			_, err = w.Write(literal.QUOTE)
 		}
-		_, err = w.Write(d.Input.ByteSlice(d.StringValues[value.Ref].Content))
+		content := d.Input.ByteSlice(d.StringValues[value.Ref].Content)
+		_, err = w.Write(content)
+		if isBlockString && len(content) > 0 && (content[len(content)-1] == '"' || content[len(content)-1] == '\\') {
+			// a trailing quote would merge with the closing delimiter and a trailing backslash would
+			// escape it; a line terminator in between is not part of the content
+			_, err = w.Write(literal.LINETERMINATOR)
+		}
 		_, err = w.Write(literal.QUOTE)
 		if isBlockString {
 			_, err = w.Write(literal.QUOTE)
